@@ -680,6 +680,9 @@ class C09(Suite):
         # Connected sessions: the Connection Manager's shared Forward Open table (in-process, see c09_fwd.py)
         for c in c09_fwd.pairs():
             yield c
+        for wire in (False, True):     # every sequence of <= 2 (thorough: <= 3) operations of two same-host peers
+            for c in c09_fwd.exhaustive(2 if tier == "quick" else 3, wire):
+                yield c
         for k in range(150 if tier == "quick" else 1500):
             yield c09_fwd.gen(rng, big=(k % 6 == 5))
         for c in self.pair_cases():
